@@ -111,11 +111,13 @@ theorem processLine_portOk {cfg : Cfg} (hd : cfg.defaultHttpPort ≠ 0) {p q : P
     · split at h
       · split at h
         · simp at h
-        · simp only [Except.ok.injEq, Prod.mk.injEq] at h
-          rw [← h.1]
-          rename_i url _
-          intro hu ht
-          exact (setLineAttributes_portOk cfg hd _ url).1 (by simpa using hu) (by simpa using ht)
+        · split at h
+          · simp at h
+          · simp only [Except.ok.injEq, Prod.mk.injEq] at h
+            rw [← h.1]
+            rename_i url _
+            intro hu ht
+            exact (setLineAttributes_portOk cfg hd _ url).1 (by simpa using hu) (by simpa using ht)
       · simp at h
     · split at h
       · simp only [Except.ok.injEq, Prod.mk.injEq] at h; rw [← h.1]
